@@ -113,6 +113,13 @@ def run(tier, rep):
         for n in range(1030):
             msgs.append(bytes(rnd.randrange(256) for _ in range(n)))
     msgs += [b"\x00" * 40, b"\xff" * 40, b"\xd3\x00\x00"]
+    # messages built to have boundary remainders (all ones, top bit only, one, ...)
+    from .. import gen_crc
+
+    for target in (0xFFFFFF, 0x000000, 0x000001, 0x800000, 0x7FFFFF, 0xFFFFFE, 0x864CFB, 0x1000, 0xFF0000, 0x00FFFF):
+        for n in (0, 1, 7, 100, 1026):
+            pre = bytes(rnd.randrange(256) for _ in range(n))
+            msgs.append(pre + gen_crc.solve_tail(pre, target))
     recs = []
     for i, m in enumerate(msgs, 1):
         c, e1 = guarded(calc_crc24q, m)
@@ -204,6 +211,11 @@ def run(tier, rep):
     must_reject(flip(big, [0, nb - 1]), "bit2:maxdist", judge=True)
     for ln in range(2, 25):
         must_reject(flip(big, [nb - ln, nb - 1]), f"burst:{ln}@end")
+    # damage confined to the 24-bit trailer (a burst <= 24 bits) chosen so that the syndrome of the
+    # damaged frame is a boundary value (all ones, one, top bit ...)
+    for fr in frames + [big]:
+        for target in (0xFFFFFF, 0x000001, 0x800000, 0x7FFFFF, 0xFFFFFE, 0x864CFB, 0xFF0000):
+            must_reject(fr[:-3] + gen_crc.solve_tail(fr[:-3], target), f"syndrome:{target:06x}", judge=True)
     # frames that embed a shorter, checksum-consistent frame: clearing length bits (a 1- or 2-bit
     # error in the header) must still be rejected - the checksum is over the WHOLE buffer
     def nested(len1, len2):
